@@ -35,6 +35,10 @@ T = {
          "implementation side uses lattice inputs (incl. 10^3-point lattices, prefixes) so that TLC can recompute distances exactly", "DESIGN.md §5 C17"),
  "C18": ("VCycle + VCellImpl (line-by-line transcription of SimpleCycle and compute_boundary) model-checked inside the cell machine: for every reachable cell and next plane, every order of the removed vertices (exhaustive up to 6/7) and rotations: never stuck, cycle = declarative boundary (ImplOK); CLIP cases replayed through verif::clip_cell under permutations; library-built cells (up to ~90 planes) re-clipped through verif::clip_existing under permutations",
          "orders above the exhaustive bound are sampled (cyclic shifts); ties with inexact snapping only required to give closed polytopes", "DESIGN.md §5 C18"),
+ "C10": ("VPred: TLC enumerates every 5-tuple of a small grid and checks transcription of in_sphere_test_exact = 4x4 determinant = geometric definition (circumcentre, orientation), translation invariance, and the first-order transport of co-spherical tuples; VCell.QueriesInDomain for every position the builder queries; vectors replayed into the real predicate (as is, swapped, scaled up to 2^49 and translated over [0,2^52), co-spherical +-1) and the grid map probed for range and monotonicity in release and dev profile",
+         "exhaustive on the small grid; the 52-bit range is reached by homogeneity and translation invariance of the determinant", "DESIGN.md §5 C10"),
+ "C11": ("the VPred vectors replayed into each buildable backend (ibig, dashu, malachite, num_bigint) must give the specification's sign; tessellations of degenerate lattice inputs (exact path consulted, incl. non-tie decisions) must be bitwise equal across backends",
+         "rug backend cannot be built in the sandbox (needs m4/GMP)", "DESIGN.md §5 C11"),
 }
 
 checks = []
